@@ -103,7 +103,7 @@ func drainIt(it kvdb.Iterator) string {
 		if n > 100000 {
 			return "err iterator does not end"
 		}
-		sb.WriteString(optHex(it.Key()))
+		sb.WriteString(HexOf(it.Key())) // a nil and an empty key are the same key
 		sb.WriteByte(':')
 		sb.WriteString(optHex(it.Value()))
 	}
